@@ -251,6 +251,7 @@ func checkC17(c *Ctx, r *Report) {
 		}
 	}
 	numberOrderRule(c, r)
+	numberSourceRule(c, r, "R17i")
 	dquoteRules(c, r)
 	whitespaceSetRule(c, r)
 	r.Check(okStop, "R17c", c.FnName(pf), "top-level stop set", c.Pos(pf.Pos()), "stop set is \"\" exactly under IgnoreCommas, otherwise \",\"", "the top-level stop set is not chosen by Config.IgnoreCommas as documented")
@@ -630,4 +631,68 @@ func whitespaceSetRule(c *Ctx, r *Report) {
 	sort.Strings(missing)
 	r.Check(len(missing) == 0, "R17h", name, "JSON white space", c.Pos(iw.Pos()), "space, tab, line feed and carriage return are skipped",
 		"ignoreWhitespace does not skip "+strings.Join(missing, ", ")+": JSON text laid out with it (CRLF line ends, say) is rejected or misread although every lookahead is preceded by the skip")
+}
+
+// numberSourceRule (R17i / R03g): the numbers parse.Value hands out are what strconv read from the token — exact, or
+// an error that makes the next syntax (and finally the string) take over. A number computed by hand-written digit
+// arithmetic in front of strconv has its own overflow behaviour (a 20-digit text above MaxUint64 wraps around where
+// ParseUint fails and ParseFloat answers 3e19), and the typed unpacking that follows can only guard what it is given.
+func numberSourceRule(c *Ctx, r *Report, rule string) {
+	r.Rule(rule, "every number parsePrimitive returns is result #0 of strconv.ParseUint / ParseInt / ParseFloat called on the token's text; no other arithmetic produces a returned number", 3)
+	fn := c.Method("parse", "flagParser", "parsePrimitive")
+	name := c.FnName(fn)
+	n := 0
+	for _, ret := range Returns(fn) {
+		if len(ret.Results) == 0 {
+			continue
+		}
+		var boxes []*ssa.MakeInterface
+		var expand func(v ssa.Value, depth int)
+		seenV := map[ssa.Value]bool{}
+		expand = func(v ssa.Value, depth int) {
+			if seenV[v] || depth > 8 {
+				return
+			}
+			seenV[v] = true
+			switch x := v.(type) {
+			case *ssa.MakeInterface:
+				boxes = append(boxes, x)
+			case *ssa.Phi:
+				for _, e := range x.Edges {
+					expand(e, depth+1)
+				}
+			case *ssa.ChangeInterface:
+				expand(x.X, depth+1)
+			}
+		}
+		expand(RetVal(ret, 0), 0)
+		for _, mi := range boxes {
+			b, isBasic := mi.X.Type().Underlying().(*types.Basic)
+			if !isBasic || b.Info()&types.IsNumeric == 0 {
+				continue
+			}
+			n++
+			good := true
+			for _, vs := range Sources(mi.X) {
+				ex, isEx := vs.(*ssa.Extract)
+				if !isEx || ex.Index != 0 {
+					good = false
+					continue
+				}
+				call, isCall := ex.Tuple.(*ssa.Call)
+				f := (*ssa.Function)(nil)
+				if isCall {
+					f = call.Call.StaticCallee()
+				}
+				if f == nil || (f.String() != "strconv.ParseUint" && f.String() != "strconv.ParseInt" && f.String() != "strconv.ParseFloat") {
+					good = false
+				}
+			}
+			r.Check(good, rule, name, "number returned ("+b.Name()+")", c.Pos(ret.Pos()), "result #0 of a strconv parse",
+				"parsePrimitive returns a "+b.Name()+" that is not the result of strconv.ParseUint/ParseInt/ParseFloat ("+describeVals(Sources(mi.X))+"): a number read by other means has its own rounding and overflow behaviour — a digit loop wraps around where strconv reports a range error")
+		}
+	}
+	if n == 0 {
+		r.Bad(rule, name, "number returned", c.Pos(fn.Pos()), "parsePrimitive returns no number at all")
+	}
 }
